@@ -365,14 +365,16 @@ SUFFIXES = ["w", "h", "q", "e", "s", "t", "t7", "e5", "s3", "q7", "t5", "d", "dd
 def rand_steps(rng):
     out = []
     for _ in range(rng.randrange(0, 5)):
-        k = rng.choice(["suf", "suf", "o", "oabs", "aug", "dur", "amp", "tag", "dyn", "acc", "mode"])
+        k = rng.choice(["suf", "suf", "o", "oabs", "aug", "dur", "amp", "tag", "tag", "untag", "tags", "dyn", "acc", "mode"])
         if k == "suf": out.append(["suf", rng.choice(SUFFIXES)])
         elif k == "o": out.append(["o", rng.randrange(-2, 3)])
         elif k == "oabs": out.append(["oabs", rng.randrange(-2, 3)])
         elif k == "aug": out.append(["aug", str(F(rng.randrange(1, 9), rng.randrange(1, 9)))])
         elif k == "dur": out.append(["dur", str(F(rng.randrange(1, 40), rng.choice([1, 2, 3, 7, 16, 1001, 4096])))])
         elif k == "amp": out.append(["amp", rng.randrange(0, 128)])
-        elif k == "tag": out.append(["tag", rng.choice(["x", "y"])])
+        elif k == "tag": out.append(["tag", rng.choice(["x", "y"] + ["t%d" % j for j in range(40)])])
+        elif k == "untag": out.append(["untag", rng.randrange(8)])
+        elif k == "tags": out.append(["tags", ["t%d" % rng.randrange(40) for _j in range(rng.randrange(2, 6))]])
         elif k == "dyn": out.append(["dyn", rng.choice(list(DYN))])
         elif k == "acc": out.append(["acc", rng.choice(ACCS)])
         elif k == "mode": out.append(["mode", rng.choice(MODES)])
@@ -390,6 +392,9 @@ def build_note(base, steps):
         elif k == "dur": n = n.set_duration(F(v))
         elif k == "amp": n = n.set_amp(v)
         elif k == "tag": n = n.add_tag(v)
+        elif k == "untag":
+            if n.tags: n = n.remove_tag(sorted(n.tags)[v % len(n.tags)])     # a tag set that has lost a member (its hash table keeps the hole)
+        elif k == "tags": n = n.add_tags(v)
         elif k in ("dyn", "acc", "mode"): n = getattr(n, v)
     return n
 
@@ -425,6 +430,17 @@ class BuiltEq(Stream):
             fresh = (lib.V % lib.I.M)(piano__0=mel, violin__0=Melody([notes[-1].copy(), notes[0].copy()]))
             if not (edited == fresh and hash(edited) == hash(fresh) and edited in {fresh}):
                 out.setdefault("chord", "stale-hash-after-in-place-edit")
+            # a custom chord (a tonality called with notes): it equals its copies, hashes like them and can be looked up in a set
+            pitched = [x for x in notes if x.type in ("s", "h")]
+            if pitched:
+                try:
+                    custom = lib.I.M(*[x.copy() for x in pitched])(piano__0=mel)
+                except Exception:
+                    custom = None
+                if custom is not None:
+                    cc, dc = custom.copy(), copy.deepcopy(custom)
+                    if not (custom == cc and cc == custom and custom == dc): out.setdefault("chord", "copy-not-equal:custom-chord")
+                    elif not (hash(custom) == hash(cc) == hash(dc) and cc in {custom}): out.setdefault("chord", "copy-hash-differs:custom-chord")
             for nm, objs in (("note", notes), ("melody", [mel]), ("chord", [chord]), ("score", [score])):
                 for x in objs:
                     cp, dc = x.copy(), copy.deepcopy(x)
